@@ -151,6 +151,7 @@ func c01(c *Ctx) {
 	r.Floor("R1.bounds", 100)
 	r.Floor("R5.blocking-ops", 2)
 	r.Floor("roots", 10)
+	r.Floor("R7.tagged-union", 8)
 
 	roots, desc := c01Roots(p)
 	for _, f := range roots {
@@ -490,6 +491,8 @@ func c01other(c *Ctx, roots []*ssa.Function, reach map[*ssa.Function]bool, tab *
 		r.Check(w == nil, "R6.dispatch-default", core.FuncName(h), p.Pos(h.Pos()), "unknown message codes yield an empty reply", "an unknown message code can produce a non-empty reply: "+p.PathString(w))
 	}
 	_ = ast.Inspect
+	// ---- R7: tag/payload agreement behind the triaged assertions on OfferRequest.Request
+	c01TaggedUnion(c, "OfferRequest", "Kind", "Request")
 }
 
 // locallyGuarded re-derives, for a site the compiler could not prove, a guard the checker can
